@@ -156,7 +156,7 @@ theorem c06_bridge_join_enabled (cfg : List String) (c : Core) (n : Int)
     (hc : c.coord = some n) (hr : c.noAssign = true ∨ c.rejoinFut = true)
     (hj : c.joinOk = none) (hl : c.leaveSent = false) :
     sendOk cfg c { api := .join, node := n, mid := c.mid, protos := cfg } = true := by
-  rcases hr with hr | hr <;> simp [sendOk, hc, hr, hj, hl]
+  rcases hr with hr | hr <;> simp [sendOk, coordFor, hc, hr, hj, hl]
 
 /-- `syncLeader` / `syncFollower`: the successful JoinGroup reply enables exactly the SyncGroup
     carrying the generation and member id of the reply -/
@@ -167,6 +167,6 @@ theorem c06_bridge_sync_enabled (cfg : List String) (c : Core) (n : Int) (g : In
   intro c' hc'
   simp only [onReply, hd, Bool.false_eq_true, if_false, List.mem_singleton] at hc'
   subst hc'
-  simp [sendOk, joinReply, hc, hl]
+  simp [sendOk, coordFor, joinReply, hc, hl]
 
 end AkVerif.Membership
